@@ -22,6 +22,9 @@ CLAIMS["C12"] = dict(cat="other", tech="CFG gate rule + store/compare expression
 CLAIMS["C05"] = dict(cat="other", tech="bit-provenance dataflow (known-bits lattice with symbolic sources) over pack/unpack; table agreement on MIR switch/aggregate structure",
    text="Header clause decided for all bit patterns at once: for every packet/chunk header type of 0.6 and 0.7, unpack(pack(f)) = f on all in-range fields, pack accepts every unpack output, and the bits that pack(unpack(b)) cannot reproduce are exactly the bits the reader's warning conditions test. Control-message tables of writer and reader are inverse bijections; compression flag/payload selection and token placement are consistent between write_impl and read_impl.",
    note=TB + "Whole-packet round trips through the Huffman bit stream are value-level and not decided. The analysed functions must be straight-line apart from assert/warn diamonds; otherwise the rule refuses (fails closed).")
+CLAIMS["C19"] = dict(cat="other", tech="unsafe/who-may-call inventory, expression-agreement rules on Drop impls, dominance rules for the counter, MIR panic-site discharge",
+   text="Structural half of the buffer abstraction: frozen inventory of unsafe code and of callers of the unsafe API; write-back exactness of every intermediate's Drop (set_len(len+initialized), [..initialized], parent += initialized) and tail-slice construction (ptr+len, capacity-len); the initialised counter is written only by advance (bounded by its assert) and extend (one increment per yielded slot); BufferRef is constructed only by new/cap_at and new only by the intermediates; every workspace advance(n) takes n from the call that filled uninitialized_mut(); no reachable panic site in the public API (capacity exhaustion is CapacityError; cap_at caps).",
+   note=TB + "The 'under an address sanitizer' half of the property is dynamic by definition and is not applicable to static analysis; lifetime soundness is enforced by the borrow checker (compile_fail witnesses run in the thorough tier).")
 NA = {}
 m = {"version": 1,
      "setup_cmd": "cd /verif/engine/mirfacts && CARGO_NET_OFFLINE=true cargo build --release --offline",
